@@ -68,11 +68,12 @@ template <typename... TArgs>
 HFSM2_CONSTEXPR(14)
 typename DynamicArrayT<T, NC_>::Index
 DynamicArrayT<T, NC_>::emplace(const TArgs&... args) noexcept {
-	HFSM2_ASSERT(_count < CAPACITY);
+	if (_count < CAPACITY) {
+		new (&_items[_count]) Item{args...};
 
-	new (&_items[_count]) Item{args...};
-
-	return _count++;
+		return _count++;
+	} else
+		return CAPACITY;
 }
 
 // - - - - - - - - - - - - - - - - - - - - - - - - - - - - - - - - - - - - - - -
@@ -82,11 +83,12 @@ template <typename... TArgs>
 HFSM2_CONSTEXPR(14)
 typename DynamicArrayT<T, NC_>::Index
 DynamicArrayT<T, NC_>::emplace(TArgs&&... args) noexcept {
-	HFSM2_ASSERT(_count < CAPACITY);
+	if (_count < CAPACITY) {
+		new (&_items[_count]) Item{::hfsm2::forward<TArgs>(args)...};
 
-	new (&_items[_count]) Item{::hfsm2::forward<TArgs>(args)...};
-
-	return _count++;
+		return _count++;
+	} else
+		return CAPACITY;
 }
 
 //------------------------------------------------------------------------------
